@@ -624,8 +624,8 @@ func (fv *FV) frameObligations(st *State, k int, pos token.Pos) {
 	alloc0 := compConst("alloc")
 	fv.ensureAlloc()
 	for _, key := range keys {
-		if whole[key] || key == "alloc" {
-			continue
+		if whole[key] || key == "alloc" || key == "L:acq" {
+			continue // L:acq counts this call's own lock acquisitions: per-call bookkeeping, not state
 		}
 		cur, ok := st.heap[key]
 		if !ok || cur.S == compConst(key) {
